@@ -69,6 +69,16 @@ this sanitizer build",
         |c: &c06::TagCase| c06::test_case(c).map(|mut i| { i.nontrivial = true; i }),
     );
     rep.run_enum(
+        "sweep-scale-sentences",
+        "the deterministic scale sentences of C03 / C04 (65,535 .. 131,080 characters, a token of \
+70,000 characters, 255 .. 300 tag columns, a tag of 70,000 characters) through both writers and \
+parsers in this sanitizer build; what a writer hands back must be valid UTF-8 (the round trip \
+compares it with the reference)",
+        false,
+        gen::scale_sentences(2, false).into_iter().map(|r| (false, r)).chain(gen::scale_sentences(3, true).into_iter().map(|r| (true, r))),
+        |c: &(bool, vcommon::oracle::RefSentence)| if c.0 { c04::roundtrip(&c.1) } else { c03::roundtrip(&c.1) }.map(|mut i| { i.nontrivial = true; i }),
+    );
+    rep.run_enum(
         "sweep-scale",
         "the deterministic scale cases of C01 (70,000-character text, 70,000 n-grams, 5,000-character \
 word, window 255) in this sanitizer build",
